@@ -5,6 +5,7 @@ import (
 	"go/token"
 	"go/types"
 	"sort"
+	"strings"
 
 	"golang.org/x/tools/go/ssa"
 
@@ -123,6 +124,9 @@ type rangeLoop struct {
 	// Complete: index runs from 0 to len(Slice)-1 and the only exit is the
 	// header's loop condition (no break / return inside).
 	Complete bool
+	// CompleteButErrors: as Complete, except that the body may leave the loop by
+	// returning a definitely non-nil error.
+	CompleteButErrors bool
 }
 
 // rangeLoopOf recognises the rangeindex loop that an element access
@@ -161,12 +165,18 @@ func rangeLoopOf(ia *ssa.IndexAddr) *rangeLoop {
 		}
 	}
 	exits := 0
+	errExits, otherExits := 0, 0
 	for b := range rl.Blocks {
 		for _, s := range b.Succs {
 			if !rl.Blocks[s] {
 				exits++
 				if b != h {
 					exits += 100
+					if ret, ok := s.Instrs[len(s.Instrs)-1].(*ssa.Return); ok && guard.DefinitelyFails(ret) {
+						errExits++
+					} else {
+						otherExits++
+					}
 				}
 			}
 		}
@@ -178,6 +188,7 @@ func rangeLoopOf(ia *ssa.IndexAddr) *rangeLoop {
 		}
 	}
 	rl.Complete = startsAtMinus1 && condOK && exits == 1
+	rl.CompleteButErrors = startsAtMinus1 && condOK && otherExits == 0 && exits == 1+101*errExits
 	return rl
 }
 
@@ -189,7 +200,17 @@ func sameSliceValue(a, b ssa.Value) bool {
 	}
 	ba, fa, oka := guard.FieldOf(a)
 	bb, fb, okb := guard.FieldOf(b)
-	return oka && okb && fa == fb && ba == bb
+	if oka && okb && fa == fb && ba == bb {
+		return true
+	}
+	// two calls of the same proto getter on the same receiver
+	ca, ia := guard.CallOf(a)
+	cb, ib := guard.CallOf(b)
+	if ca != nil && cb != nil && ia == ib && guard.CalleeName(&ca.Call) == guard.CalleeName(&cb.Call) && strings.Contains(guard.CalleeName(&ca.Call), ").Get") &&
+		len(ca.Call.Args) == 1 && len(cb.Call.Args) == 1 && guard.Strip(ca.Call.Args[0]) == guard.Strip(cb.Call.Args[0]) {
+		return true
+	}
+	return false
 }
 
 // elemOfRange: v is the element loaded in a range loop: *(&S[idx]); returns
